@@ -402,10 +402,11 @@ def deep_snapshot(roots):
             if id(e) in seen:
                 continue
             seen.add(id(e))
-            if isinstance(e, ObjectMeta):
-                attrs = {k: v for k, v in vars(e).items() if not k.startswith("__")}
-            else:
-                attrs = vars(e)
+            # the configuration: public attributes and the declared-property table.  Other
+            # private attributes (a memo a maintainer might add) are not part of what C08 calls
+            # the element tree; what they may do to later behaviour is observed as behaviour.
+            attrs = {k: v for k, v in vars(e).items()
+                     if not k.startswith("_") or k == "_properties"}
             snap.append((id(e), tuple(sorted((k, fp(v)) for k, v in attrs.items()))))
     snap.append(fp(UNBOUND_PROPERTY))
     return snap
